@@ -37,7 +37,8 @@ structure St where
   doc : Node
   detached : List Node
   next : Nat
-  handles : List Nat
+  /-- handle slot i ↦ node id; an allocating operation consumes one slot whatever its outcome -/
+  handles : List (Option Nat)
   deriving Inhabited
 
 /-! ### generic tree functions (attributes and children are both sub-nodes) -/
@@ -151,8 +152,21 @@ def validName (s : Str) : Bool := fullMatch N.name s && !s.isEmpty
 def validText (s : Str) : Bool := fullMatch N.char_data s
 def validComment (s : Str) : Bool := fullMatch N.comment ("<!--".toList ++ s ++ "-->".toList)
 def validCData (s : Str) : Bool := fullMatch N.cdsect ("<![CDATA[".toList ++ s ++ "]]>".toList)
+/-- a whole Name: NameStartChar NameChar* -/
+def isName (s : Str) : Bool :=
+  match s with
+  | [] => false
+  | c :: r => P.isNameStartChar c && r.all P.isNameChar
+
+/-- a PI target the factory accepts: a Name such that `<?target?>` is a processing instruction -/
+def validPITarget (t : Str) : Bool := isName t && fullMatch N.pi ("<?".toList ++ t ++ "?>".toList)
+
+/-- PI data is validated by parsing `<?target data?>` -/
 def validPI (target data : Str) : Bool :=
-  fullMatch N.pi ("<?".toList ++ target ++ (if data.isEmpty then [] else ' ' :: data) ++ "?>".toList)
+  fullMatch N.pi ("<?".toList ++ target ++ ' ' :: data ++ "?>".toList)
+
+/-- what is stored: the white space that separates target and data belongs to the separator -/
+def storedPIData (data : Str) : Str := data.dropWhile isWs
 
 def validData (k : Kind) (s : Str) : Bool :=
   match k with
@@ -167,7 +181,15 @@ def validData (k : Kind) (s : Str) : Bool :=
 def parseAttrValue (value : Str) : Option (List Piece) :=
   let quoted := escapeQ value
   match run env (100000 + 64 * value.length) (.nt N.att_value) quoted with
-  | .ok c [] => some (absPieces c)
+  | .ok (.node _ b) [] =>
+    let ps := absPieces b
+    -- every reference must resolve: the five predefined entities (a document edited through the DOM has
+    -- no other general entities here) and character references to XML characters
+    if ps.all (fun
+        | .entRef n => (predefined.find? (·.1 == n)).isSome
+        | .charRef d h => (charOfRef d h).isSome
+        | .peRef _ => false
+        | .text _ => true) then some ps else none
   | _ => none
 
 def pieceKind : Piece → Kind × Str
@@ -229,6 +251,8 @@ def insertChild (s : St) (p c : Nat) (ref : Option Nat) : St × Res :=
   match s.find p, s.find c with
   | some pn, some cn =>
     if !canHaveChildren pn.kind then (s, .err .hierarchy) else
+    -- the document node itself has no owner document: as an argument it is "of another document"
+    if c == s.doc.id || ref == some s.doc.id then (s, .err .wrongDoc) else
     -- the reference node must be a child of the parent
     if (match ref with | some r => !(pn.kids.any (·.id == r)) | none => false) then (s, .err .notFound) else
     -- the new child is its own reference: it goes in front of the node that follows it
@@ -252,6 +276,7 @@ def removeChild (s : St) (p c : Nat) : St × Res :=
   match s.find p with
   | some pn =>
     if !canHaveChildren pn.kind then (s, .err .hierarchy) else
+    if c == s.doc.id then (s, .err .wrongDoc) else
     if !(pn.kids.any (·.id == c)) then (s, .err .notFound) else
     match s.detach c with
     | (s1, some x) => ({ s1 with detached := s1.detached ++ [x] }, .node c)
@@ -264,25 +289,25 @@ def findAttr (e : Node) (name : Str) : Option Node :=
 
 def step (s : St) : Op → St × Res
   | .createElement name =>
-      if validQName name then let (s', i) := s.fresh (.elem name) []; ({ s' with handles := s'.handles ++ [i] }, .node i)
-      else (s, .err .invalidChar)
+      if validQName name then let (s', i) := s.fresh (.elem name) []; ({ s' with handles := s'.handles ++ [some i] }, .node i)
+      else ({ s with handles := s.handles ++ [none] }, .err .invalidChar)
   | .createText d =>
-      if validText d then let (s', i) := s.fresh .text d; ({ s' with handles := s'.handles ++ [i] }, .node i) else (s, .panic)
+      if validText d then let (s', i) := s.fresh .text d; ({ s' with handles := s'.handles ++ [some i] }, .node i) else ({ s with handles := s.handles ++ [none] }, .panic)
   | .createComment d =>
-      if validComment d then let (s', i) := s.fresh .comment d; ({ s' with handles := s'.handles ++ [i] }, .node i) else (s, .panic)
+      if validComment d then let (s', i) := s.fresh .comment d; ({ s' with handles := s'.handles ++ [some i] }, .node i) else ({ s with handles := s.handles ++ [none] }, .panic)
   | .createCData d =>
-      if validCData d then let (s', i) := s.fresh .cdata d; ({ s' with handles := s'.handles ++ [i] }, .node i) else (s, .panic)
+      if validCData d then let (s', i) := s.fresh .cdata d; ({ s' with handles := s'.handles ++ [some i] }, .node i) else ({ s with handles := s.handles ++ [none] }, .panic)
   | .createPI t d =>
-      if validName t && validPI t d then let (s', i) := s.fresh (.pi t) d; ({ s' with handles := s'.handles ++ [i] }, .node i)
-      else (s, .err .invalidChar)
+      if validPITarget t && validPI t d then let (s', i) := s.fresh (.pi t) (storedPIData d); ({ s' with handles := s'.handles ++ [some i] }, .node i)
+      else ({ s with handles := s.handles ++ [none] }, .err .invalidChar)
   | .createAttribute name =>
-      if validQName name then let (s', i) := s.fresh (.attr name true) []; ({ s' with handles := s'.handles ++ [i] }, .node i)
-      else (s, .err .invalidChar)
+      if validQName name then let (s', i) := s.fresh (.attr name true) []; ({ s' with handles := s'.handles ++ [some i] }, .node i)
+      else ({ s with handles := s.handles ++ [none] }, .err .invalidChar)
   | .createEntityRef name =>
-      if !validName name then (s, .err .invalidChar)
+      if !validName name then ({ s with handles := s.handles ++ [none] }, .err .invalidChar)
       else if (predefined.find? (·.1 == name)).isSome then
-        let (s', i) := s.fresh (.ref name) []; ({ s' with handles := s'.handles ++ [i] }, .node i)
-      else (s, .err .invalid)
+        let (s', i) := s.fresh (.ref name) []; ({ s' with handles := s'.handles ++ [some i] }, .node i)
+      else ({ s with handles := s.handles ++ [none] }, .err .invalid)
   | .appendChild p c => insertChild s p c none
   | .insertBefore p c r => insertChild s p c r
   | .removeChild p c => removeChild s p c
@@ -290,22 +315,22 @@ def step (s : St) : Op → St × Res
       match s.find p with
       | none => (s, .err .notFound)
       | some pn =>
-        if !canHaveChildren pn.kind then (s, .err .hierarchy) else
-        if !(pn.kids.any (·.id == old)) then (s, .err .notFound) else
-        if new == old then (s, .node old) else
-        -- the node after `old` (other than `new`) is where `new` goes
+        if new == old then
+          -- a child that replaces itself stays where it is (the checks of insertBefore apply)
+          (match insertChild s p new (some old) with
+           | (s', .node _) => (s', .node old)
+           | r => r)
+        else
+        -- `old` is taken out, `new` goes in front of the node that followed it; when that is refused
+        -- nothing has happened
         let after := ((pn.kids.dropWhile (·.id != old)).drop 1).filter (·.id != new)
         let ref : Option Nat := after.head?.map (·.id)
-        -- all checks of the insertion are made with `old` still in place
-        match insertChild s p new (some old) with
-        | (_, .err e) => (s, .err e)
-        | _ =>
-          match removeChild s p old with
-          | (s1, .node _) =>
-            (match insertChild s1 p new ref with
-             | (s2, .node _) => (s2, .node old)
-             | (_, r) => (s, r))
-          | (_, r) => (s, r)
+        match removeChild s p old with
+        | (s1, .node _) =>
+          (match insertChild s1 p new ref with
+           | (s2, .node _) => (s2, .node old)
+           | (_, r) => (s, r))
+        | (_, r) => (s, r)
   | .setAttribute e name value =>
       match s.find e with
       | some en =>
@@ -339,7 +364,7 @@ def step (s : St) : Op → St × Res
       | some en, some an =>
         (match an.kind with
          | .attr name _ =>
-           if (s.owner a) == some e then (s, .none_) else          -- already this element's attribute: nothing to do
+           if (s.owner a) == some e then (s, .node a) else         -- already this element's attribute: nothing to do
            if (s.owner a).isSome then (s, .err .inUse) else
            let old := findAttr en name
            let (s1, oldId) : St × Option Nat := match old with
@@ -363,15 +388,15 @@ def step (s : St) : Op → St × Res
   | .getAttributeNode e name =>
       match s.find e with
       | some en => (match findAttr en name with
-          | some o => (if s.handles.contains o.id then s else { s with handles := s.handles ++ [o.id] }, .node o.id)
-          | none => (s, .none_))
-      | none => (s, .err .notFound)
+          | some o => ({ s with handles := s.handles ++ [some o.id] }, .node o.id)
+          | none => ({ s with handles := s.handles ++ [none] }, .none_))
+      | none => ({ s with handles := s.handles ++ [none] }, .err .notFound)
   | .childAt n i =>
       match s.find n with
       | some nn => (match nn.kids[i]? with
-          | some k => (if s.handles.contains k.id then s else { s with handles := s.handles ++ [k.id] }, .node k.id)
-          | none => (s, .none_))
-      | none => (s, .err .notFound)
+          | some k => ({ s with handles := s.handles ++ [some k.id] }, .node k.id)
+          | none => ({ s with handles := s.handles ++ [none] }, .none_))
+      | none => ({ s with handles := s.handles ++ [none] }, .err .notFound)
   | .setValue n v =>
       match s.find n with
       | some nn =>
@@ -382,10 +407,12 @@ def step (s : St) : Op → St × Res
             | some ps =>
               let (items, n') := mkItems s.next ps
               -- the old value items become detached anonymous nodes
-              ({ (s.update n (Node.mapKids (fun _ => items))) with
-                   next := n', detached := s.detached ++ nn.kids }, .ok))
+              let s1 := s.update n (Node.mapKids (fun _ => items))
+              ({ s1 with next := n', detached := s1.detached ++ nn.kids }, .ok))
          | .text | .cdata | .comment | .pi _ =>
-           if validData nn.kind v then (s.update n (Node.withData v), .ok) else (s, .err .invalid)
+           if validData nn.kind v then
+             (s.update n (Node.withData (match nn.kind with | .pi _ => storedPIData v | _ => v)), .ok)
+           else (s, .err .invalid)
          | _ => (s, .err .noData))
       | none => (s, .err .notFound)
   | .setData n d => dataOp s n (fun old => some d)
@@ -399,7 +426,7 @@ def step (s : St) : Op → St × Res
         (match nn.kind with
          | .text | .cdata =>
            (match CharData.splitText nn.data off with
-            | none => (s, .err .indexSize)
+            | none => ({ s with handles := s.handles ++ [none] }, .err .indexSize)
             | some (l, r) =>
               let new := Node.mk s.next nn.kind r [] []
               let s1 := s.update n (Node.withData l)
@@ -409,9 +436,9 @@ def step (s : St) : Op → St × Res
                     | nx :: _ => insertBeforeL new (some nx.id) ks
                     | [] => ks ++ [new])
                 | none => { s1 with detached := s1.detached ++ [new] }
-              ({ s2 with next := s.next + 1, handles := s.handles ++ [s.next] }, .node s.next))
-         | _ => (s, .err .hierarchy))
-      | none => (s, .err .notFound)
+              ({ s2 with next := s.next + 1, handles := s.handles ++ [some s.next] }, .node s.next))
+         | _ => ({ s with handles := s.handles ++ [none] }, .err .hierarchy))
+      | none => ({ s with handles := s.handles ++ [none] }, .err .notFound)
   | .normalize _ => (s, .ok)
 where
   /-- a CharacterData edit: INDEX_SIZE_ERR from the offset, then the validity of the OUTCOME -/
@@ -421,7 +448,8 @@ where
       if isCharData nn.kind || (match nn.kind with | .pi _ => true | _ => false) then
         match f nn.data with
         | none => (s, .err .indexSize)
-        | some d' => if validData nn.kind d' then (s.update n (Node.withData d'), .ok)
+        | some d' => if validData nn.kind d' then
+                       (s.update n (Node.withData (match nn.kind with | .pi _ => storedPIData d' | _ => d')), .ok)
                      else (s, .err .invalid)
       else (s, .err .noData)
     | none => (s, .err .notFound)
